@@ -924,6 +924,10 @@ func (c *Compiler) linkRecursiveCode(ctx *compileContext) {
 		lastCode.ElemIdx = lastCode.Idx + uintptrSize
 		lastCode.Length = lastCode.Idx + 2*uintptrSize
 
+		// interface ops inside the recursive program push a frame behind this one:
+		// they need this program's full slot extent, exactly like the top-level programs
+		setTotalLengthToInterfaceOp(code)
+
 		// extend length to alloc slot for elemIdx + length
 		curTotalLength := uintptr(recursive.TotalLength()) + 3
 		nextTotalLength := uintptr(totalLength) + 3
